@@ -5,6 +5,7 @@ import (
 	"encoding/json"
 	"errors"
 	"fmt"
+	"io"
 	"strings"
 
 	"github.com/pentops/j5/j5types/any_j5t"
@@ -49,12 +50,25 @@ func (c *Codec) decodeRootNested(jsonData []byte, root j5reflect.Root, depth int
 
 	switch schema := root.(type) {
 	case j5reflect.Object:
-		return d2.decodeObject(schema)
+		if err := d2.decodeObject(schema); err != nil {
+			return err
+		}
 	case j5reflect.Oneof:
-		return d2.decodeOneof(schema)
+		if err := d2.decodeOneof(schema); err != nil {
+			return err
+		}
 	default:
 		return fmt.Errorf("unsupported root schema type %T", schema)
 	}
+
+	// the document is one JSON value, nothing may follow it.
+	if tok, err := dec.Token(); err != io.EOF {
+		if err != nil {
+			return err
+		}
+		return fmt.Errorf("unexpected %v after the end of the document", tok)
+	}
+	return nil
 }
 
 // decoder is an instance for decoding a single message, not reusable.
